@@ -402,9 +402,13 @@ func (u *Unit) evalIdent(env *SpecEnv, name string) SV {
 	}
 	if env.calleeFn != nil {
 		// a local of the callee mentioned in its postcondition: existential
+		cname := name
+		if n2, ok := u.aliasesOf(env.calleeFn)[name]; ok {
+			cname = n2 // the callee's local was renamed
+		}
 		for _, b := range env.calleeFn.Blocks {
 			for _, in := range b.Instrs {
-				if al, ok := in.(*ssa.Alloc); ok && al.Comment == name {
+				if al, ok := in.(*ssa.Alloc); ok && al.Comment == cname {
 					t := al.Type().(*types.Pointer).Elem()
 					key := "calleelocal." + name
 					if v, ok := env.names[key]; ok {
